@@ -56,4 +56,20 @@ CHECKS = {
           "every state; replay through every concrete pair, swapped, Geometry enum, representation variants, similarity maps."),
     note="Trusted: TLC rational arithmetic (cross-multiplied comparison, products < 2^31). Tolerance 1e-9 relative on d^2; exact zero demanded.",
     technique="TLA+ exact rational minimum distance enumerated by TLC; spec->impl replay", design_ref="DESIGN.md 5 C07"),
+ "C03": dict(
+    text=("Gen_Kernel.tla: orientation of ulp-perturbed exactly-collinear triples decided as the sign of a perturbation polynomial "
+          "(exact integer coefficients, identity checked by TLC); derived exact answers for point-on-segment, point-in-ring / "
+          "polygon / triangle, segment intersects and winding order; replayed in one binade and with coordinates of mixed "
+          "magnitude (differences not representable), at scales 2^30 / 2^-40; lattice triples at 2^52 / 2^-500 and through the "
+          "i64 / i32 kernels."),
+    note=("'All finite f64' cannot be enumerated: exactness is decided on lattice*2^k and the perturbed-degenerate family (where naive "
+          "arithmetic is known to flip). Trusted: TLC; u is one ulp of the chosen binade; harness constructs base + k*u exactly."),
+    technique="TLA+ symbolic-infinitesimal orientation (polynomial sign) enumerated by TLC; spec->impl replay", design_ref="DESIGN.md 5 C03, 3.3"),
+ "C11": dict(
+    text=("Gen_Segments.tla: exact relation of every ordered pair of lattice segments (none / collinear sub-segment / point with exact "
+          "rational, proper flag), order- and direction-independence checked by TLC on every state; replay in 3 operand orders under "
+          "exact maps: class, bit-identical improper endpoint, overlap up to direction, proper point within 4 ulp and inside both "
+          "boxes, agreement with intersects; plus ulp-perturbed classification from Gen_Kernel."),
+    note="Trusted: TLC; rational crossing evaluated in f64 by the harness (one division). 4x4 lattice exhaustively, larger magnitudes via exact maps.",
+    technique="TLA+ exact segment relation enumerated by TLC; spec->impl replay", design_ref="DESIGN.md 5 C11"),
 }
